@@ -94,6 +94,7 @@ struct verif_snap_ghost {
   cbor_item_t *key;   /* map pair */
   cbor_item_t *value;
   size_t refcount;    /* reference count of the element an accessor is about to hand out */
+  unsigned char byte; /* payload byte at the watched position (strings) */
 };
 extern struct verif_snap_ghost g_s;
 #endif
